@@ -164,3 +164,55 @@ for _i, (_st, _d, _p) in enumerate(_ALL):
     ob("C17", "skel.%s.ins%03d" % (_st, _p), {"e0": BOOL, "e1": BOOL, "c": CP}, tier="quick" if _i in _Q else "thorough", T=150,
        funcs=["cdd.shared.docstring_parsers.parse_docstring"] + FUNCS, assumes=[STUB_DOC, ADHOC_SHIMS_DOC],
        bound="%s skeleton with ANY code point inserted at offset %d; eval outcome nondeterministic" % (_st, _p))(_skel(_st, _d, _p))
+
+
+# import.*: looking up where an analysed module lives must not import it --------------------------------------------------------------
+import atexit  # noqa: E402
+import shutil  # noqa: E402
+import sys  # noqa: E402
+import tempfile  # noqa: E402
+
+_ROOT = tempfile.mkdtemp(prefix="chx_c17_")
+atexit.register(shutil.rmtree, _ROOT, True)
+SPKG = "shopdb%d" % os.getpid()
+os.makedirs(os.path.join(_ROOT, SPKG, "sub"))
+for _rel, _txt in (("__init__.py", ""), ("sub/__init__.py", ""),
+                   ("element.py", "import os\nopen(os.path.join(os.path.dirname(__file__), 'SENTINEL'), 'w').close()\nclass Element(object):\n    pass\n"),
+                   ("sub/leaf.py", "import os\nopen(os.path.join(os.path.dirname(os.path.dirname(__file__)), 'SENTINEL'), 'w').close()\nLEAF = 1\n"),
+                   ("node.py", "from %s.element import Element\n\nclass Node(object):\n    e: Element = None\n" % SPKG)):
+    with open(os.path.join(_ROOT, SPKG, _rel), "w") as _f:
+        _f.write(_txt)
+sys.path.insert(0, _ROOT)
+
+
+def lookup_does_not_import(which, with_sub, missing):
+    from cdd.shared.pure_utils import find_module_filepath
+
+    sentinel = os.path.join(_ROOT, SPKG, "SENTINEL")
+    if os.path.exists(sentinel):
+        os.remove(sentinel)
+    for k in [k for k in sys.modules if k.startswith(SPKG + ".")]:
+        del sys.modules[k]
+    mod, sub = (SPKG, "element") if which == 0 else (SPKG + ".sub", "leaf")
+    if missing:
+        sub = "nonexistent"
+    try:
+        if with_sub:
+            find_module_filepath(mod, sub)
+        else:
+            find_module_filepath(mod + "." + sub)
+    except Exception:
+        pass
+    loaded = [k for k in sys.modules if k.startswith(SPKG + ".") and k.rsplit(".", 1)[-1] in ("element", "leaf")]
+    ran = os.path.exists(sentinel)
+    if ran:
+        os.remove(sentinel)
+    if ran or loaded:
+        return "looking up the file of an analysed module executed it (sentinel written: %s, sys.modules: %r)" % (ran, loaded)
+    return ""
+
+
+ob("C17", "import.find_module_filepath", {"which": R(0, 1), "with_sub": BOOL, "missing": BOOL}, T=120,
+   funcs=["cdd.shared.pure_utils.find_module_filepath"],
+   bound="find_module_filepath on a scratch package whose modules write a sentinel file when executed: top-level / nested module, (module, submodule) or dotted form, "
+         "existing or missing (solver-enumerated): the looked-up module's code does not run and it does not enter sys.modules")(lookup_does_not_import)
